@@ -279,17 +279,24 @@ class Fork:
 
 
 class Case:
-    def __init__(self, name, guard, ensures, proof=True):
+    def __init__(self, name, guard, ensures, proof=True, escalate=False):
         """proof=False: the clause is out of the solvers' reach (stated in DESIGN.md); it is only evaluated by the
-        bounded layer and is never counted as a proof obligation."""
-        self.name, self.guard, self.ensures, self.proof = name, guard, ensures, proof
+        bounded layer and is never counted as a proof obligation.
+        escalate=True (only meaningful in a ghost unit): the clause restates the PROPERTY itself over state a native run
+        cannot observe; if it was discharged on the reference tree and its verification condition now has a counter-model,
+        that is reported as a violation without a failing input (DESIGN 'unwitnessed violations').  Clauses that are proof
+        devices stronger than the property (read frames, call order) never escalate: they go undecided."""
+        self.name, self.guard, self.ensures, self.proof, self.escalate = name, guard, ensures, proof, escalate
 
 
 class Unit:
     def __init__(self, id, target, inputs, cases, requires=None, call=None, allowed_raises=(), canary=None,
                  axioms=None, prop=None, doc='', setup=None, native_call=None, max_paths=4000, timeout_ms=None,
-                 bounded_domain_cap=4000, kf_regions=None, feas_timeout_ms=2000, fork=None, extra_combos=(), cross_key=None):
+                 bounded_domain_cap=4000, kf_regions=None, feas_timeout_ms=2000, fork=None, extra_combos=(), cross_key=None, ghost=False):
         self.cross_key = cross_key
+        # ghost=True: the clauses consult state only the interpreted run can observe (attribute reads / writes, the order of
+        # collaborator calls): a counterexample of such a clause cannot be confirmed by running the function natively
+        self.ghost = ghost
         self.fork = fork
         self.extra_combos = list(extra_combos)
         self.id, self.target, self.inputs, self.cases = id, target, inputs, cases
@@ -589,6 +596,12 @@ def run_instance(inst, tier='quick', seed=0):
                 ob['witness'] = info['witness']
                 ob['reasons'].append(info.get('detail', ''))
                 break
+            if getattr(unit, 'ghost', False) and getattr(case, 'escalate', False) and info.get('unconfirmed') and (not is_sym(ens) or not any(models.USED_UFS)):
+                # a clause over interpreter-only observations fails on an exactly modelled path: no native witness can exist
+                ob['verdict'] = 'unwitnessed'
+                ob['witness'] = info['unconfirmed']
+                ob['reasons'].append(info.get('detail', ''))
+                break
             if ob['verdict'] == 'proved':
                 ob['verdict'] = 'undecided'
             ob['reasons'].append(info.get('detail', 'unknown'))
@@ -660,6 +673,7 @@ def _discharge(it, inst, unit, fn, case, assertions, vars_, timeout_ms, vals):
     for name, shape in inst.inputs:
         nice += shape.nice(name, vars_)
     last_detail = ''
+    last_inputs, last_model = {}, ''
     for rnd in range(8):
         r = None
         if nice:
@@ -709,6 +723,8 @@ def _discharge(it, inst, unit, fn, case, assertions, vars_, timeout_ms, vals):
         new = _uf_facts(r.model, assertions + facts)
         new = [f for f in new if not any(f.eq(g) for g in facts)]
         last_detail = f'model not confirmed natively (inputs {[ _short(a, 60) for a in args]} gave {out!r})'
+        last_inputs = {n: _short(a) for (n, _), a in zip(inst.inputs, args)}
+        last_model = str(r.model)[:1500]
         if not new:
             # exclude this exact input point and look for another one
             pt = [v.t == r.model.eval(v.t, model_completion=True) for v in vars_.values()]
@@ -727,6 +743,8 @@ def _discharge(it, inst, unit, fn, case, assertions, vars_, timeout_ms, vals):
         info['detail'] = f'counterexample found among the constants of the verification condition and replayed natively: {w["inputs"]} -> {w["observed"]}'
         return 'refuted', info
     info['detail'] = 'counterexamples could not be confirmed on the real code after instantiation rounds: ' + last_detail
+    info['unconfirmed'] = dict(inputs=last_inputs, model=last_model, case=case.name, observed=None, assign={},
+                               note='the verification condition has a counter-model; running the real function on it does not show a failure the native run can observe')
     return 'undecided', info
 
 
